@@ -75,6 +75,8 @@ class ProgGen(object):
         self.in_gen = None
         self.no_ret = 0
         self.in_exit_cond = 0
+        self.in_try = 0
+        self.exns = ["Ex0", "Ex1", "Ex2"] if "try" in self.feat else []
         self.top_loop = 0         # inside a loop body at file level (known finding C01 qualified-literal-in-condition)
         self.top_if = 0           # inside an if-branch at file level (see known finding C01 while-in-if)
         self.in_fun = 0
@@ -311,6 +313,16 @@ class ProgGen(object):
         """The single operand of an assignment / initialisation / return / yield: it may have side effects
         (a call of an impure function or of a closure), its own operands are pure."""
         r = self.r
+        if self.exns and not self.pure_mode and self.in_fun and isinstance(t, str) and t != UNIT and d > 0 and r.random() < 0.25:
+            save_loop = self.in_loop
+            self.in_try += 1
+            self.in_loop = 0
+            body = self.rhs(t, scope, d - 1)
+            hs = [{"exn": ex, "ps": [], "body": self.expr(t, scope, d - 1)} for ex in r.sample(self.exns, r.randint(1, 2))]
+            fin = self.block(Scope(scope), 0, 1) if r.random() < 0.5 else {"e": "none"}
+            self.in_try -= 1
+            self.in_loop = save_loop
+            return {"e": "try", "t": t, "body": body, "hs": hs, "fin": fin}
         if not self.pure_mode and r.random() < 0.35:
             c = []
             fs = [i for i, f in enumerate(self.funs) if tkey(f["rt"]) == tkey(t) and f.get("callable", True) and not f.get("pure")]
@@ -358,12 +370,14 @@ class ProgGen(object):
                 choices += ["for"] * 2
             if ("list" in self.feat or "gen" in self.feat) and not noloop:
                 choices += ["forin"]
-        if self.in_loop and "brk" in self.feat and not nocond:
+        if self.in_loop and "brk" in self.feat and not nocond and not self.in_try:
             choices += ["brk"] * 2
-        if self.ret_t is not None and not self.no_ret and d > 0:
+        if self.ret_t is not None and not self.no_ret and d > 0 and not self.in_try:
             choices += ["ret"]
-        if self.in_gen is not None:
+        if self.in_gen is not None and not self.in_try:
             choices += ["yield"] * 3
+        if self.exns and not self.pure_mode and self.in_fun and not self.in_gen and d > 0 and r.random() < 0.4:
+            choices += ["throw"]
         if "halt" in self.feat and not self.pure_mode and self.in_fun and not self.in_gen and d > 0 and r.random() < 0.3:
             choices += ["halt"]
         for x, (vt, a) in allv.items():
@@ -461,6 +475,9 @@ class ProgGen(object):
             return {"e": "if", "c": self.expr(BOOL, scope, d), "a": {"e": r.choice(["break", "iterate"])}, "b": {"e": "unit"}, "t": UNIT}
         if c == "ret":
             return {"e": "if", "c": self.expr(BOOL, scope, d - 1), "a": {"e": "ret", "v": self.rhs(self.ret_t, scope, d - 1)},
+                    "b": {"e": "unit"}, "t": UNIT}
+        if c == "throw":
+            return {"e": "if", "c": self.expr(BOOL, scope, d - 1), "a": {"e": "throw", "exn": r.choice(self.exns), "args": []},
                     "b": {"e": "unit"}, "t": UNIT}
         if c == "halt":
             return {"e": "if", "c": self.expr(BOOL, scope, d - 1), "a": {"e": "error", "msg": "halt%d" % r.randint(0, 99)},
@@ -613,6 +630,7 @@ class ProgGen(object):
         args.append({"e": "str", "s": "\n"})
         self.items.append(("t", {"d": "stmt", "x": {"e": "print", "args": args}}))
         self.hoist_while_counters()
+        self.overload_groups()
         top, order = [], []
         for k, it in self.items:
             if k == "f":
@@ -620,8 +638,31 @@ class ProgGen(object):
             else:
                 order.append(["t", len(top)])
                 top.append(it)
-        return {"id": pid or ("g%d" % self.seed), "funs": self.funs, "top": top, "order": order, "recs": self.recs,
+        return {"id": pid or ("g%d" % self.seed), "funs": self.funs, "top": top, "order": order, "recs": self.recs, "exns": self.exns,
                 "uns": self.uns, "feat": sorted(self.feat), "seed": self.seed}
+
+    def overload_groups(self):
+        """Feature ovl: several functions share one Aldor name when their parameter type lists differ pairwise
+        (so that every call is resolved by its argument types alone)."""
+        for f in self.funs:
+            f["oname"] = f["name"]
+        if "ovl" not in self.feat:
+            return
+        cands = [f for f in self.funs if f["pts"]]
+        self.r.shuffle(cands)
+        groups = []
+        for f in cands:
+            sig = tkey(["x"] + f["pts"])
+            for g in groups:
+                if all(tkey(["x"] + h["pts"]) != sig for h in g) and len(g) < 3 and self.r.random() < 0.7:
+                    g.append(f)
+                    break
+            else:
+                groups.append([f])
+        for g in groups:
+            if len(g) > 1:
+                for f in g:
+                    f["oname"] = "ov" + g[0]["name"]
 
     def global_var(self):
         t = self.data_type()
@@ -676,3 +717,81 @@ def generate(seed, n, features=None):
         g = ProgGen(seed * 100003 + i, features=features)
         out.append(g.program("g%d_%d" % (seed, i)))
     return out
+
+
+# ---- extreme constants (C05): machine integers wider than 31 bits, 300-digit integers, long / escaped strings ----
+# (floating-point constants are not part of the abstract language: AldorSem.tla and render.py have no floats;
+#  their save/reload behaviour is covered by C19)
+
+SI_WIDE = [2**31, 2**31 + 1, -(2**31) - 1, 2**32 - 1, 2**32, 5000000000, 2**33 + 5, 2**62, 2**62 - 1, 2**62 + 2**31,
+           2**63 - 1, -(2**63 - 1), (2**31 - 1) << 31, ((2**31 - 1) << 31) | 1, 2**61 + 1, -(2**62), 12345678901234567,
+           -987654321098765432, 2**31 * 3, -(2**40), 2**63 - 2**31]
+STR_ESCAPES = ["\\", "\"", "_", "%", "'", "??/", "|", ";", "(", ")", "#", "~", "$", "&", "{", "}", "[", "]", "^", "`", "@", "!",
+               "<", ">", "=", "/*", "*/", "//", "\\n", "\\\\", "%d", "%s", " ", "a", "Z", "0", "--", "++", ","]
+
+
+def add_extremes(prog, seed):
+    """A copy of prog with extra functions and file-level forms that carry extreme constants.  The added functions
+    mention no file-level variable, so they can be moved into a library unit (render.lib_eligible).  All arithmetic
+    on the wide machine integers stays in range (no overflow)."""
+    import copy
+    r = random.Random(seed)
+    p = copy.deepcopy(prog)
+    p.setdefault("order", [["f", i] for i in range(len(p["funs"]))] + [["t", i] for i in range(len(p["top"]))])
+    feat = set(p.get("feat", [])) | {"bi", "str", "fun", "extreme"}
+    p["feat"] = sorted(feat)
+
+    def add_fun(name, ps, pts, rt, value):
+        p["funs"].append({"name": name, "ps": ps, "pts": pts, "rt": rt, "pure": True,
+                          "body": {"e": "seq", "es": [value], "t": rt}})
+        p["order"].append(["f", len(p["funs"]) - 1])
+        return len(p["funs"])          # 1-based index for call nodes
+
+    def add_top(form):
+        p["top"].append(form)
+        p["order"].append(["t", len(p["top"]) - 1])
+
+    def wide():
+        if r.random() < 0.6:
+            return r.choice(SI_WIDE)
+        n = r.getrandbits(r.randint(32, 63))
+        n = max(n, 2**31)
+        return -n if r.random() < 0.4 else n
+
+    def big(nd):
+        n = int("".join([str(r.randint(1, 9))] + [str(r.randint(0, 9)) for _ in range(nd - 1)]))
+        return -n if r.random() < 0.3 else n
+
+    def text(n):
+        return "".join(r.choice(STR_ESCAPES) for _ in range(n))
+
+    nl = {"e": "str", "s": "\n"}
+    sp = {"e": "str", "s": " "}
+    # machine integers: c -/+ (p mod 1000) stays inside the 64-bit range for every |c| < 2^63
+    calls = []
+    for k in range(r.randint(2, 3)):
+        c = wide()
+        m = prim("si.mod", var("xp"), lit(SI, 1000))
+        val = prim("si.sub", lit(SI, c), m) if c > 0 else prim("si.add", lit(SI, c), m)
+        fi = add_fun("xw%d" % (k + 1), ["xp"], [SI], SI, val)
+        calls.append({"e": "call", "fi": fi, "args": [lit(SI, r.randint(0, 5000))]})
+    # big integers of about 300 decimal digits
+    fb = add_fun("xb1", ["xp"], [BI], BI, prim("bi.add", prim("bi.mul", var("xp"), lit(BI, big(r.choice([300, 301, 150])))),
+                                                lit(BI, big(r.choice([40, 300])))))
+    calls.append({"e": "call", "fi": fb, "args": [lit(BI, r.choice([0, 1, -1, 2**64, 10**30 + 1]))]})
+    # long and escaped strings
+    fs = add_fun("xs1", ["xp"], [SI], STR, {"e": "if", "c": prim("si.gt", var("xp"), lit(SI, 0)),
+                                            "a": {"e": "str", "s": text(r.choice([40, 400, 1500]))},
+                                            "b": {"e": "str", "s": text(r.randint(1, 12))}, "t": STR})
+    calls.append({"e": "call", "fi": fs, "args": [lit(SI, 1)]})
+    calls.append({"e": "call", "fi": fs, "args": [lit(SI, 0)]})
+    add_top({"d": "var", "x": "xg1", "t": SI, "init": lit(SI, wide())})
+    add_top({"d": "var", "x": "xg2", "t": BI, "init": lit(BI, big(300))})
+    # the most negative machine integer has no literal: it is computed (and folded at -Q2 and above)
+    add_top({"d": "var", "x": "xg3", "t": SI, "init": prim("si.sub", lit(SI, -(2**63 - 1)), lit(SI, 1))})
+    for c in calls:
+        add_top({"d": "stmt", "x": {"e": "print", "args": [c, nl]}})
+    add_top({"d": "stmt", "x": {"e": "print", "args": [var("xg1"), sp, var("xg2"), sp, var("xg3"), sp, lit(SI, wide()), sp,
+                                                          lit(BI, r.choice([2**31, 2**32 + 1, 2**63, -(2**63) - 1, 2**64])),
+                                                          sp, {"e": "str", "s": text(r.randint(0, 30))}, nl]}})
+    return p
